@@ -56,7 +56,7 @@ for f in $list; do
   if [ -n "$REGEX" ] && ! [[ "$f" =~ $REGEX ]]; then continue; fi
   if [[ "$f" == */seeded/* ]]; then
     dir="$(dirname "$f")"; name="seeded/$(basename "$dir")"
-    props="$(jq -r '.property | if type=="array" then .[] else . end' "$dir/meta.json")"
+    props="$(jq -r '.property | if type=="array" then .[] else . end' "$dir/meta.json" | tr '\n' ' ')"
     expect=""
   else
     name="mutants/$(basename "$(dirname "$f")")/$(basename "$f" .diff)"
